@@ -376,6 +376,42 @@ _verdict(bool(bad), **bad)
 ''' % (r, direction, [float(x) for x in nrm])
 
 
+def _replay_general():
+    """General confirmation on the compiled build: piecewise-linear curves with known crossings (on samples, between samples, touching),
+    every direction, segment_refine in {0, 1, 3}, linear (exact times) and cubic (count and bracketing segment) interpolation."""
+    return '''
+from hiten.algorithms.poincare.synodic.backend import _SynodicDetectionBackend
+be = _SynodicDetectionBackend()
+bad = {}
+for NRM in ([1.0, 0.0, 0.0, 0.0, 0.0, 0.0], [1.0, 0.5, 0.0, 0.0, -2.0, 0.0]):
+    nrm = np.array(NRM); j = 0
+    for DIRECTION in (1, -1, None):
+        for R in (0, 1, 3):
+            for kind in ("linear", "cubic"):
+                for name, gs in (("on_samples", [-1.0, 0.0, 1.0, 0.0, -1.0, 0.0, 1.0]), ("between", [-1.0, 1.0, -1.0, 1.0, 2.0]), ("touch_above", [1.0, 0.0, 1.0, 2.0]), ("touch_below", [-1.0, 0.0, -1.0, -2.0]), ("mixed", [-0.5, 0.75, 0.0, -0.25, 0.0, 0.5])):
+                    n = len(gs); times = np.arange(n, dtype=float)
+                    states = np.zeros((n, 6)); states[:, 1] = 0.01 * times; states[:, 4] = 0.02 * times
+                    states[:, 0] = (np.array(gs) + 0.25 - states[:, 1:] @ nrm[1:]) / nrm[0]
+                    want = []
+                    for k in range(n - 1):
+                        g0, g1 = gs[k], gs[k + 1]
+                        if g0 == 0.0:
+                            prev = gs[k - 1] if k >= 1 else None
+                            if DIRECTION is None or (DIRECTION == 1 and (g1 >= 0 or (prev is not None and prev <= 0))) or (DIRECTION == -1 and (g1 <= 0 or (prev is not None and prev >= 0))): want.append(float(k))
+                        elif g0 * g1 < 0 and (DIRECTION is None or (DIRECTION == 1) == (g0 < 0)): want.append(k + g0 / (g0 - g1))
+                    hits = be.detect_on_trajectory(times, states, normal=nrm, offset=0.25, plane_coords=("y", "vy"), interp_kind=kind, segment_refine=R, tol_on_surface=1e-12,
+                                                   dedup_time_tol=1e-9, dedup_point_tol=1e-12, max_hits_per_traj=None, direction=DIRECTION)
+                    got = [float(h.time) for h in hits]
+                    tag = "%s_dir%s_refine%d_%s_%s" % ("axis" if NRM[1] == 0 else "oblique", DIRECTION, R, kind, name)
+                    if kind == "cubic" and name not in ("on_samples", "between"): continue     # a cubic through touching, non-smooth data legitimately overshoots
+                    if kind == "linear" or name == "on_samples":
+                        if len(got) != len(want) or any(abs(a - b) > 1e-9 for a, b in zip(got, want)): bad[tag] = "hit times %s, expected %s" % (np.round(got, 6).tolist(), np.round(want, 6).tolist())
+                    else:
+                        if len(got) != len(want) or any(not (np.floor(b) - 1e-9 <= a <= np.floor(b) + 1 + 1e-9) for a, b in zip(got, want)) or got != sorted(got): bad[tag] = "hit times %s, expected one per bracket of %s" % (np.round(got, 6).tolist(), np.round(want, 6).tolist())
+_verdict(bool(bad), **{k: bad[k] for k in list(bad)[:6]})
+'''
+
+
 def _same(a, b):
     from engine.sym import is_zero_syntactic
     return is_zero_syntactic(Sym.lift(a) - Sym.lift(b))
@@ -486,6 +522,7 @@ def cubic_refine(chk, direction, budget, max_iter):
 
 def main():
     chk = Check(PID)
+    chk.default_replay = _replay_general
     import hiten.algorithms.poincare.synodic.backend as SB
     thorough = chk.tier == 'thorough'
     chk.encode(SB._SynodicDetectionBackend.detect_on_trajectory, SB._on_surface_indices, SB._crossing_indices_and_alpha, SB._refine_hits_linear,
